@@ -263,6 +263,11 @@ def one_case(rng):
         q["bad"] = 0.15
     fail_last = failing and q["bad"] == 0.0 and rng.random() < 0.7
     if kind == "get_defaults":
+        # two cooperating declarations: below a mapping-valued argument with a dict default, a child argument (dotted dest)
+        if rng.random() < 0.5:
+            for k, t, d in list(decls):
+                if t[0] == "dict" and isinstance(d, dict) and rng.random() < 0.8:
+                    decls.append([k + ".hi", I, rng.randint(0, 9)])
         return mk_case(decls, kind)
     if kind == "parse_object":
         if style < 0.45:
@@ -313,6 +318,7 @@ def fixed_cases():
         mk_case([["k", ["tup1", ["tup1", ["list", I]]], None]], "validate", [NS(k=((["1", 2],),))]),
         mk_case([["k", ["tup1", ["tup2", I, ["list", ["tup2", I, I]]]], None]], "dump", [NS(k=((7, [(1, 2)]),))], skipval=False),
         mk_case([["k", ["tup1", ["tup1", ["list", I]]], (([1],),)]], "get_defaults"),
+        mk_case([["o", ["dict", I], {"m": 1}], ["o.h", I, 2], ["a", I, 3]], "get_defaults"),
         mk_case([["k", LL, [[1], [2]]], ["a", I, 3]], "parse_path", content={"k": [["1"]], "a": "foo"}, dir="symlink"),
         mk_case([["k", LL, [[1], [2]]], ["a", I, 3]], "parse_path", content={"k": [["1"]], "a": 4}, dir="symrel"),
         mk_case([["k", LL, [[1], [2]]], ["a", I, 3]], "save", [NS(k=[["1"]], a=4)], exists=False, dir="symlink"),
@@ -352,9 +358,15 @@ def expect(v, dflt=False):
     return {"i": v if isinstance(v, int) and not isinstance(v, bool) else 0}
 
 
+def expect_map(m):
+    return {"list": [expect(x) for x in m.values()]}      # Dict[str, Base]: the values in key order
+
+
 def expect_decl(kind, given, default):
     if given is None:
         return {"i": 0} if default is None else expect(default, True)
+    if kind == "dictbase":
+        return expect_map(given)
     if kind == "tupbase":
         return {"tup": [expect(given[0]), expect(given[1])]}
     if kind == "tuptupbase":
@@ -397,11 +409,15 @@ def gen_spec(rng, depth):
 def inst_case(rng):
     decls, cfg = [], {}
     for key in PKEYS[: rng.randint(1, 4)]:
-        kind = rng.choice(["base", "base", "optbase", "listbase", "tupbase", "tuptupbase", "tup3base", "anybase"])
+        kind = rng.choice(["base", "base", "optbase", "listbase", "tupbase", "tuptupbase", "tup3base", "anybase", "dictbase"])
         if kind == "anybase":                              # add_argument(type=Any, default=lazy_instance(...)), mostly left at the default
             decls.append([key, kind, gen_spec(rng, 1)])
             if rng.random() < 0.3:
                 cfg[key] = gen_spec(rng, 1)
+            continue
+        if kind == "dictbase":                             # Dict[str, Base]
+            decls.append([key, kind, None])
+            cfg[key] = {kk: gen_spec(rng, rng.randint(0, 2)) for kk in rng.sample(DKEYS, rng.randint(0, 2))}
             continue
         if kind == "tupbase":                              # Tuple[Base, int]
             decls.append([key, kind, None])
@@ -462,16 +478,22 @@ def fixed_inst_cases():
         {"kind": "inst", "decls": [["a", "base", None]], "cfg": {"a": {"cls": "Holder", "args": {}}}},
         # a class with a lazy_instance signature default, given below a tuple (finding default-below-tuple-shared)
         {"kind": "inst", "decls": [["a", "tupbase", None]], "cfg": {"a": [{"cls": "Pair", "args": {}}, 1]}},
+        # specs inside a list and a dict, reused as cfg_base= / namespace= of a second parse
+        {"kind": "inst", "decls": [["a", "listbase", None], ["b", "dictbase", None]],
+         "cfg": {"a": [leaf, {"cls": "Unit", "args": {}}], "b": {"k": leaf, "m": {"cls": "Pair", "args": {}}}}},
     ]]
 
 
-AUX_ENTRIES = ["args_cfg", "dflt_get_defaults", "dflt_help", "dflt_parse_args", "list_file", "parse_env", "dflt_print_help"]
+AUX_ENTRIES = ["args_cfg", "dflt_get_defaults", "dflt_help", "dflt_parse_args", "list_file", "parse_env", "dflt_print_help",
+               "get_defaults", "parse_args", "parse_object", "parse_string", "dump_skip_default", "validate"]
+AUX_NO_FILE = AUX_ENTRIES[7:] + ["parse_env"]
 
 
 def aux_cases():
     """all of them: entry point x directory flavour x (succeeds | fails midway)"""
-    return [{"kind": "aux", "entry": e, "dir": d, "fail": f} for e in AUX_ENTRIES for d in ["plain", "symlink", "rel", "symrel"]
-            for f in (False, True)]
+    return [{"kind": "aux", "entry": e, "dir": d, "fail": f} for e in AUX_ENTRIES
+            for d in (["plain"] if e in AUX_NO_FILE else ["plain", "symlink", "rel", "symrel"])
+            for f in ((False,) if e == "get_defaults" else (False, True))]
 
 
 def is_aux(case):
@@ -743,3 +765,19 @@ def shrink(case):
     for i in range(len(case["parser"])):
         if len(case["parser"]) > 1:
             yield dict(case, parser=case["parser"][:i] + case["parser"][i + 1:])
+
+
+def search(rng, tier, broken):
+    """bounded search for a failing input after a broken proof / tie: one quick-sized batch with a fresh seed (the default
+    of the framework would run the whole thorough generator)"""
+    import sys
+    mod = sys.modules[__name__]
+    cases = generate(rng, "quick")
+    obs = observe(cases)
+    bad_model, bad_in, bad_out = fw.judge_cases(mod, cases, obs, tag="x")
+    known = fw.load_known_findings(PROP)
+    bad = sorted(set(bad_in) | {i for i, k in bad_out if FINDING_CLASSES.get(k) not in known})
+    if not bad:
+        return None
+    i = bad[0]
+    return {"case": cases[i], "observed": obs[i], "explain": describe(cases[i], obs[i])}
